@@ -461,7 +461,9 @@ INFO = {
                    "z3 decides that arguments (or defaults) sit at the standard's CDB positions and that cmd.result "
                    "equals, term by term, an independent decode of the device-written bytes. A device whose execute raises "
                    "(TypeError, ValueError, OSError, AttributeError, KeyError, RuntimeError, a foreign exception) still "
-                   "receives exactly one command and the caller sees that exception. The same call over the library's "
+                   "receives exactly one command and the call fails. A command object executed and decoded a second time "
+                   "reports the new answer only; a facade without a configured block size and a facade re-attached with "
+                   "s(dev2) still send exactly one command, to the attached device. The same call over the library's "
                    "SCSIDevice and ISCSIDevice on the stub bindings: one binding call, carrying the very cdb/dataout/"
                    "datain objects of the returned command (allocation length symbolic), result decoded from what the "
                    "binding left in the buffer.",
